@@ -23,6 +23,7 @@ func Report(tag string) []string {
 		enc,
 		fmt.Sprint(err == nil, r.ID, r.Item.Name, r.Extra.Label),
 		mid1.Show(Pair{Left: m, Right: r}),
+		mid1.Show(mid1.MakeDeep()),
 	}
 	return out
 }
